@@ -37,7 +37,7 @@ ASSUMPTIONS = ["the two data files emptied by the environment (SimSun_bad_len9, 
                "quick checks shipped data up to length 6, thorough every length"]
 REQUIRED = ["calls.write_bisc_files", "calls.read_bisc_file", "calls.PinWords.store_dfa_for_perm", "calls.PinWords.load_dfa_for_perm",
             "history.overwrites", "history.malformed_reads", "history.reads_decided", "dfa.loads_decided", "shipped.blocks_verified",
-            "shipped.files", "audit.open_events", "emptied_files.reported_invalid", "faults.injected", "dfa.threaded_rounds"]
+            "shipped.files", "audit.open_events", "emptied_files.reported_invalid", "faults.injected", "dfa.threaded_rounds", "aliasing.read_results_mutated"]
 MIN_NONTRIVIAL = 60
 CTX = None
 MON = None
@@ -198,6 +198,18 @@ def chk_files(ctx, ops, prepopulate):
                 else:
                     if not isinstance(got, dict) or norm(got) != want or not all(type(p) is Perm for v in got.values() for p in v):
                         report("files", [ops, prepopulate], f"read_bisc_file({key!r}) returned {str(got)[:200]}, last written: {str(want)[:200]}")
+                    elif got:
+                        # aliasing: the caller alters what it was given; the next read of the untouched file must not change
+                        for lst in got.values():
+                            lst.append(Perm((0, 1, 2, 3, 4, 5, 6)))
+                            del lst[:1]
+                        got.pop(max(got))
+                        ctx.count("aliasing.read_results_mutated")
+                        with quiet():
+                            again = BM.read_bisc_file(key)
+                        ctx.ev()
+                        if not isinstance(again, dict) or norm(again) != want:
+                            report("files", [ops, prepopulate], f"after the caller altered an earlier result, read_bisc_file({key!r}) no longer returns the last written data")
             elif kind == "corrupt":
                 _, name, gb, n, how = op
                 key = f"{name}_{gb}_len{n}"
